@@ -161,10 +161,7 @@ func sortOf(T types.Type) string {
 		}
 		return SInt
 	case *types.Array:
-		if isSliceT(t.Elem()) {
-			return sArr(SInt, SInt)
-		}
-		return sArr(SInt, sortOf(t.Elem()))
+		return SInt // boxed: a reference to the element storage
 	case *types.Slice:
 		return ""
 	case *types.Tuple:
